@@ -37,7 +37,7 @@ fn silent_panic_hook() {
     std::panic::set_hook(Box::new(|info| {
         // (simulated threads may be NAMED "main" too; the real one is the
         // one whose id was recorded at start-up)
-        if MAIN_THREAD.get() == Some(&std::thread::current().id()) {
+        if MAIN_THREAD.get() == Some(&std::thread::current().id()) || std::env::var_os("SIM_PANIC_VERBOSE").is_some() {
             eprintln!("HARNESS-PANIC: {}", info);
         }
     }));
